@@ -334,9 +334,29 @@ func newID(fset *token.FileSet, rel string, pos token.Pos, what string) *ast.Bas
 	return &ast.BasicLit{Kind: token.INT, Value: strconv.Itoa(pointID)}
 }
 
-func mkPoint(fset *token.FileSet, rel string, pos token.Pos) ast.Stmt {
+func mkPoint(fset *token.FileSet, rel string, pos token.Pos, of ast.Node) ast.Stmt {
 	return &ast.ExprStmt{X: &ast.CallExpr{Fun: &ast.SelectorExpr{X: ast.NewIdent("vsys"), Sel: ast.NewIdent("Point")},
-		Args: []ast.Expr{newID(fset, rel, pos, "stmt")}}}
+		Args: []ast.Expr{newID(fset, rel, pos, "stmt "+nodeText(fset, of))}}}
+}
+
+// nodeText renders the head of a statement on one line (for the point table: harnesses look points up by it).
+func nodeText(fset *token.FileSet, n ast.Node) string {
+	var b bytes.Buffer
+	if err := printer.Fprint(&b, fset, headOnly2(n)); err != nil {
+		return ""
+	}
+	t := strings.Join(strings.Fields(b.String()), " ")
+	if len(t) > 90 {
+		t = t[:90]
+	}
+	return strings.ReplaceAll(t, "\"", "'")
+}
+
+func headOnly2(n ast.Node) ast.Node {
+	if s, ok := n.(ast.Stmt); ok {
+		return headOnly(s)
+	}
+	return n
 }
 
 // wrapCond rewrites boolean operands that are interesting calls into (vsys.PointB(id) && call)
@@ -359,7 +379,7 @@ func wrapCond(fset *token.FileSet, rel string, e ast.Expr) ast.Expr {
 	case *ast.CallExpr:
 		if isInterestingCall(t) {
 			pb := &ast.CallExpr{Fun: &ast.SelectorExpr{X: ast.NewIdent("vsys"), Sel: ast.NewIdent("PointB")},
-				Args: []ast.Expr{newID(fset, rel, t.Pos(), "cond")}}
+				Args: []ast.Expr{newID(fset, rel, t.Pos(), "cond "+nodeText(fset, t))}}
 			return &ast.ParenExpr{X: &ast.BinaryExpr{X: pb, Op: token.LAND, Y: t}}
 		}
 	}
@@ -382,7 +402,7 @@ func instrumentList(fset *token.FileSet, rel string, list []ast.Stmt) []ast.Stmt
 		if ls, ok := s.(*ast.LabeledStmt); ok {
 			inner := ls.Stmt
 			if interesting(headOnly(inner)) {
-				ls.Stmt = mkPoint(fset, rel, inner.Pos())
+				ls.Stmt = mkPoint(fset, rel, inner.Pos(), inner)
 				out = append(out, ls, inner)
 				continue
 			}
@@ -393,7 +413,7 @@ func instrumentList(fset *token.FileSet, rel string, list []ast.Stmt) []ast.Stmt
 			continue
 		}
 		if interesting(headOnly(s)) {
-			out = append(out, mkPoint(fset, rel, s.Pos()))
+			out = append(out, mkPoint(fset, rel, s.Pos(), s))
 		}
 		out = append(out, s)
 	}
